@@ -291,6 +291,14 @@ class Exec:
             self.paths_ok = False
 
     # ------------------------------------------------------------------
+    def _op_restructure(self):
+        """the whole pipeline on the edited graph.  NOT used by the check: a graph that already contains caller-made
+        synthetic branching blocks is outside the input domain of C01/C02/C06 (see DESIGN corrections log 15); kept
+        for replaying the two witnesses of that exploration."""
+        self._call(self.real.restructure)
+        self.cur = self.real
+        self.flags.add("then_restructure")
+
     def _invariants(self):
         flat = M.check_hierarchy(self.real)
         M.check_tables(flat)
